@@ -21,8 +21,13 @@ type revWorld struct {
 	cw    []*crlWorld
 }
 
-func ocspURL(ci, j int) string { return fmt.Sprintf("http://ocsp.test/c%d/r%d", ci, j) }
-func crlURL(ci, j int) string  { return fmt.Sprintf("http://crl.test/c%d/dp%d/base", ci, j) }
+// The name of the j-th URL of a certificate is deliberately not monotone in j (a library that sorted or de-duplicated
+// its URL lists would otherwise go unnoticed): position 0,1,2,3 -> label 2,0,3,1.
+var urlLabel = []int{2, 0, 3, 1}
+var urlIndexOfLabel = map[int]int{2: 0, 0: 1, 3: 2, 1: 3}
+
+func ocspURL(ci, j int) string { return fmt.Sprintf("http://ocsp.test/c%d/r%d", ci, urlLabel[j]) }
+func crlURL(ci, j int) string  { return fmt.Sprintf("http://crl.test/c%d/dp%d/base", ci, urlLabel[j]) }
 
 // newRevWorld builds a conforming chain of length n (leaf first).
 func newRevWorld(n int, o, c []int, p purposeKind) *revWorld {
@@ -114,12 +119,12 @@ func parseSource(u string) (source, bool) {
 	if m := reOCSP.FindStringSubmatch(u); m != nil {
 		a, _ := strconv.Atoi(m[1])
 		b, _ := strconv.Atoi(m[2])
-		return source{kind: "ocsp", cert: a, idx: b}, true
+		return source{kind: "ocsp", cert: a, idx: urlIndexOfLabel[b]}, true
 	}
 	if m := reCRL.FindStringSubmatch(u); m != nil {
 		a, _ := strconv.Atoi(m[1])
 		b, _ := strconv.Atoi(m[2])
-		return source{kind: "crl", cert: a, idx: b, delta: m[3] == "delta"}, true
+		return source{kind: "crl", cert: a, idx: urlIndexOfLabel[b], delta: m[3] == "delta"}, true
 	}
 	return source{}, false
 }
